@@ -253,14 +253,21 @@ def gen_steps():
     # ---- open ---------------------------------------------------------------------------------
     op = fn_body(db, r"pub fn open<P: AsRef<Path>>\(self, path: P\) -> Result<DB> \{", "OpenOptions::open")
     open_outer = scan(op, [("existsCheck", r"path\.exists\(\)"), ("initFile", r"init_file\("), ("openFile", r"open_file\(path, false"),
-                           ("dbOpen", r"DBInner::open\(")], "OpenOptions::open", once=("existsCheck", "initFile", "openFile", "dbOpen"))
-    io = fn_body(db, r"pub\(crate\) fn open\(file: File, pagesize: u64, flags: DBFlags\) -> Result<DBInner> \{", "DBInner::open")
-    open_inner = scan(io, [("flock", r"file\.lock_exclusive\(\)"), ("mmap", r"mmap\(&file"), ("readMeta", r"db\.meta\(\)"),
-                           ("loadFreelist", r"\.init\(free_pages\)")], "DBInner::open", once=("flock", "mmap", "readMeta", "loadFreelist"))
-    inf = fn_body(db, r"fn init_file\(path: &Path, pagesize: u64, num_pages: usize, direct_write: bool\) -> Result<File> \{", "init_file")
-    init = scan(inf, [("createNew", r"open_file\(path, true"), ("fallocate", r"file\.allocate\("), ("writeInit", r"file\.write_all\("),
+                           ("openOrCreate", r"open_file\(path, true"), ("dbOpen", r"DBInner::open\(")], "OpenOptions::open", once=("openOrCreate", "dbOpen"))
+    io = fn_body(db, r"pub\(crate\) fn open\(\s*mut file: File,\s*pagesize: u64,\s*num_pages: usize,\s*flags: DBFlags,?\s*\) -> Result<DBInner> \{", "DBInner::open")
+    open_inner = scan(io, [("flock", r"file\.lock_exclusive\(\)"), ("initIfEmpty", r"if file\.metadata\(\)\?\.len\(\) == 0 \{\s*init_file\(&mut file"),
+                           ("mmap", r"mmap\(&file"), ("readMeta", r"db\.meta\(\)"),
+                           ("loadFreelist", r"\.init\(free_pages\)")], "DBInner::open", once=("flock", "initIfEmpty", "mmap", "readMeta", "loadFreelist"))
+    if len(re.findall(r"init_file\(", io)) != 1:
+        raise GenError("DBInner::open: init_file must be called exactly once, under the `len() == 0` test")
+    inf = fn_body(db, r"fn init_file\(file: &mut File, pagesize: u64, num_pages: usize\) -> Result<\(\)> \{", "init_file")
+    init = scan(inf, [("createNew", r"open_file\("), ("fallocate", r"file\.allocate\("), ("writeInit", r"file\.write_all\("),
                       ("flush", r"file\.flush\(\)"), ("sync", r"file\.sync_all\(\)"), ("flock", r"lock_exclusive\(\)")],
-                "init_file", once=("createNew", "fallocate", "writeInit", "sync"))
+                "init_file", once=("fallocate", "writeInit", "sync"))
+    # the file is opened with `create`, never `create_new` (a second opener must get the same file and wait for the lock)
+    of = re.findall(r"fn open_file<P: AsRef<Path>>\(path: P, create: bool, direct_write: bool\) -> Result<File> \{(.*?)\n\}", strip_comments(src("db.rs")), flags=re.S)
+    if not of or any("create_new" in b_ or "open_options.create(true)" not in b_ for b_ in of):
+        raise GenError("open_file: expected `open_options.create(true)` (not create_new) in every platform variant")
 
     # ---- DBInner::meta: validity before trust, strict tx_id comparison ---------------------------
     mt = fn_body(db, r"pub\(crate\) fn meta\(&self\) -> Result<Meta> \{", "DBInner::meta")
